@@ -258,6 +258,41 @@ def scenarios(tier):
     # 9n. a quiet wire for longer than any poll timeout: no frame matches the filter during a long exit delay; nothing is reported as an error
     sc.append({"name": "quiet-wire", "args": ["icmp", "--json"] + COMMON + ["--exit-delay", "2600ms", "10.9.3.0/31"], "files": {"empty": ""},
                "expect": dict(packet_expect("icmp", target(net30, 31), [[]], [2], 2600), nerr=0)})
+    # 9o. an ARP scan on an interface without hardware address: no Ethernet, no ARP - refused, nothing sent
+    sc.append({"name": "refuse-arp-on-tun", "dev": "tun", "args": ["arp", "--json", "--exit-delay", "300ms", "10.8.3.0/30"], "maxMs": 6000,
+               "expect": {"kind": "refuse", "scan": "arp", "target": target([0, 0, 0, 0], 0)}})
+    # 9p. addresses on standard input x more than 200 port ranges: the list is read again for every port of every pass
+    sports = list(range(2000, 2201))
+    saddrs = [a(d) for d in range(1, 25)]
+    spairs = [{"ip": ip, "port": p} for ip in saddrs for p in sports]
+    sc.append({"name": "tcp-stdin-chunked", "args": ["tcp", "syn", "--json", "-i", "vfw0", "-f", "-", "-p", ",".join(map(str, sports))] + COMMON + ["--exit-delay", "300ms"], "files": {"empty": ""},
+               "stdin": "".join('{"ip":"%s"}\n' % ".".join(map(str, ip)) for ip in saddrs), "maxMs": 20000,
+               "expect": packet_expect("tcpsyn", target([0, 0, 0, 0], 0, pairs=spairs), [[rng(p, p) for p in sports[:200]], [rng(p, p) for p in sports[200:]]], [len(saddrs) * 200, len(saddrs)], 300, has_net=False)})
+    # 9q. the ARP cache on a standard input that is a regular file, with --gwmac: own entry first, gateway for the rest
+    sc.append({"name": "tcp-cache-on-stdin-file", "args": ["tcp", "syn", "--json", "-p", "80", "--srcip", "10.9.0.77", "--gwmac", "02:5a:00:00:00:fe", "--exit-delay", "300ms", "10.9.3.0/30"],
+               "stdin": '{"ip":"10.9.3.1","mac":"02:5a:07:07:07:01"}\n{"ip":"10.9.3.2","mac":"02:5a:07:07:07:02"}\n', "stdinFile": True,
+               "expect": dict(packet_expect("tcpsyn", target(net30, 30, [rng(80, 80)]), [[rng(80, 80)]], [4], 300), dstmacs=[{"ip": a(1), "mac": m1}, {"ip": a(2), "mac": m2}])})
+    # 9r. the interface goes down and comes back during the scan: errors are reported, the scan goes on, a reply after the flap is printed;
+    # in live mode the passes keep coming
+    sc.append({"name": "link-flap", "args": ["arp", "--json", "--rate", "100/s", "--exit-delay", "500ms", "10.9.3.0/26"], "flapAfter": 10, "flapDownMs": 150, "maxMs": 12000,
+               "inject": [{"bytes": arp_reply(a(7), m1), "afterProbe": 45, "delayMs": 20}],
+               "expect": dict(packet_expect("arp", target(net30, 26), [[]], [64], 500, srcip=[10, 9, 0, 1], dstmac=[255] * 6), kind="flap")})
+    sc.append({"name": "arp-live-flap", "args": ["arp", "--json", "--live", "300ms", "10.9.3.0/30"], "flapAfter": 5, "flapDownMs": 150, "sigintAfter": 21, "maxMs": 15000,
+               "expect": {"kind": "liveflap", "scan": "arp", "target": target(net30, 30), "naddr": 4, "intervalUs": 300000, "minPasses": 2}})
+    # 9s. standard output that cannot be written (/dev/full), plain output: errors, but the scan ends
+    sc.append({"name": "stdout-full", "args": ["arp", "--exit-delay", "400ms", "10.9.3.0/30"], "stdoutTo": "/dev/full", "maxMs": 8000,
+               "inject": [{"bytes": arp_reply(a(2), m2), "afterProbe": 1, "delayMs": 20}, {"bytes": arp_reply(a(1), m1), "afterProbe": 1, "delayMs": 40}],
+               "expect": dict(packet_expect("arp", target(net30, 30), [[]], [4], 400, srcip=[10, 9, 0, 1], dstmac=[255] * 6), kind="packetbusy")})
+    # 9t. a slow reader on standard output and a record far larger than a pipe buffer: the last line is complete when the process exits
+    sc.append({"name": "elastic-slow-stdout", "args": ["elastic", "--json", "-p", "9200-9201", "--exit-delay", "50ms", "10.200.0.4"], "servers": {"9200": "json", "9201": "bigjson"}, "slowStdout": True, "maxMs": 20000,
+               "expect": dict(hexp(target([10, 200, 0, 4], 32, [rng(9200, 9201)]), 2, 2), hosts=True)})
+    # 9u. a reply late in a long exit delay
+    sc.append({"name": "late-reply-long-delay", "args": ["tcp", "syn", "--json", "-p", "80"] + COMMON + ["--exit-delay", "3s", "10.9.3.1"], "files": {"empty": ""}, "maxMs": 12000,
+               "inject": [{"bytes": tcp_reply(a(1), 80, 0x12), "afterProbe": 1, "delayMs": 2500}],
+               "expect": packet_expect("tcpsyn", target(a(1), 32, [rng(80, 80)]), [[rng(80, 80)]], [1], 3000)})
+    # 9v. a rate below one packet per second
+    sc.append({"name": "arp-subpps-rate", "args": ["arp", "--json", "--rate", "9/10s", "--exclude", "{dir}/rexcl", "--exit-delay", "300ms", "10.9.3.0/28"], "files": {"rexcl": "10.9.3.12/30\n"}, "maxMs": 30000,
+               "expect": packet_expect("arp", target(net30, 28, exclude=[{"ip": [10, 9, 3, 12], "len": 30}]), [[]], [12], 300, rate={"n": 9, "winMs": 10000, "winNs": 0}, srcip=[10, 9, 0, 1], dstmac=[255] * 6)})
     # 10. targets that are not IPv4 are refused before anything is sent
     for i, t in enumerate(["::1", "::ffff:10.9.3.1/126", "fe80::1/64", "10.9.3.1/33", "10.9.3"]):
         sc.append({"name": "refuse-%d" % i, "args": ["tcp", "syn", "--json", "-p", "80"] + COMMON + ["--exit-delay", "300ms", t], "files": {"empty": ""}, "maxMs": 6000,
